@@ -31,7 +31,7 @@ def install(I):
 
     def model(fn):
         def deco(f):
-            M[id(fn)] = f
+            M.register(fn, f)
             return f
 
         return deco
